@@ -40,6 +40,10 @@ func runC04(w *World, r *Report) {
 	}, map[string]string{"R9": "R6", "R2": "R6", "R4": "R6"})
 	hrFoundIsMonotone(w, r, "R6")
 	hrSetTypeStores(w, r, "R6")
+	hrEveryMatchingEdgeFollowed(w, r, "R1")
+	hrScriptRestoresResponse(w, r, "R6")
+	hrGenerateResponseHandsOver(w, r, "R6")
+	hrConcurrentLocations(w, r, "R8")
 	hrSystemFlowsLookedUpAlways(w, r, "R6")
 	hrCfgEarlyResponseNotFedBack(w, r, "R6")
 	hrAddConnections(w, r, "R8")
